@@ -5,4 +5,4 @@ Require Import ExtrOcamlBasic.
 Extraction "semodel.ml" N_of_digits Z_of_digits digits_of_N tc_lookup
   mathml latex julia sbml str_of unicode run_box get_string box_s box_w box_e
   tc_table str_names mathml_over sbml_over latex_over unicode_over modelled_codes
-  mm_guard latex_guard unicode_guard sbml_fragment.
+  mm_guard latex_guard unicode_guard sbml_fragment latex_names_ok.
